@@ -27,6 +27,7 @@ RULE = ("case = aggregation class (PNorm/KSFunction/SoftMinMax), signed paramete
         "Distinct = sha1 of the canonical case JSON.")
 EXHAUSTIVE_NOTE = ("all vectors over the value grid {1,2,3,5} (every tie pattern and ordering): quick n = 1..6 x 3 "
                    "active-set option sets, thorough n = 1..7 x 10 option sets")
+FUZZ = {"quick": 0, "thorough": 3000, "instrument": "pymoto.modules.aggregation"}
 ASSUMPTIONS = [
     "data are 1-D float arrays with strictly positive entries (the property's domain); |rho*x|, |alpha*x| <= 500 and "
     "|p*ln x| <= 500 so that exp/pow do not overflow (the drawn parameter is clamped accordingly)",
